@@ -108,6 +108,9 @@ func runC06(r *Run) {
 	r.DrawYields()
 	peerDropsAfterEcho := t.Draw(2) == 1 // the peer closes its transport right after echoing
 	closerHasCloseRead := t.Draw(3) == 2 // libpair: the closing side has CloseRead active
+	// lib-initiates: the peer starts reading only after this long, so that writing the
+	// Close frame takes a while (below the 5 s allowed for it) before the wait for the echo starts
+	writeStall := []time.Duration{0, 0, 3 * time.Second, 4500 * time.Millisecond}[t.Draw(4)]
 	r.S.MaxSim = 2 * time.Minute
 	r.S.MaxSteps = 20000
 	bg := context.Background()
@@ -121,6 +124,7 @@ func runC06(r *Run) {
 	r.D("delay", delay.String())
 	r.D("reader_mode", readerMode)
 	r.D("msgs_before", nBefore)
+	r.D("write_stall", writeStall.String())
 	r.Nontrivial = true
 
 	valid := wsref.ValidWireCode(code) && len(reason) <= 123
@@ -162,8 +166,25 @@ func runC06(r *Run) {
 				readerRet = true
 			})
 		}
+		stalled := false
+		if writeStall > 0 {
+			peer.Hold = func() bool { return stalled }
+			sig += ",wstall"
+			r.Class += "/wstall"
+		}
 		r.S.Go("closer", func() {
 			r.S.Park("a.closer")
+			if writeStall > 0 {
+				stalled = true
+				rc.Lib.Out().Cap = 0
+				rc.Lib.Out().HardCap = true
+				time.AfterFunc(writeStall, func() {
+					stalled = false
+					rc.Lib.Out().Cap = 1 << 30
+					r.S.Kick()
+				})
+				r.S.Count("fault.close-frame-write-stalled")
+			}
 			closeErr = c.Close(websocket.StatusCode(code), reason)
 			closeDone = true
 			closerReturned[c] = r.S.Step()
